@@ -76,25 +76,6 @@ Proof.
   cbn in *. congruence.
 Qed.
 
-Lemma late_view_stable : forall x, args_stable_op x = true -> late_view x = x.
-Proof. intros x H. unfold late_view, args_stable_op in *. destruct (o_kind x); auto. discriminate. Qed.
-
-Lemma run_ops_late_stable : forall l st,
-  (forall x, In x l -> args_stable_op (snd x) = true) -> run_ops_v late_view st l = run_ops st l.
-Proof.
-  unfold run_ops. induction l as [|y l IH]; intros st H; cbn; auto.
-  rewrite (late_view_stable (snd y)) by (apply H; left; reflexivity).
-  destruct (apply_op st (snd y)) as [s1 ok1]. rewrite IH; auto. intros x Hx. apply H. right. exact Hx.
-Qed.
-
-Lemma args_stable_concat : forall w x, args_stable w = true -> In x (concat w) -> args_stable_op x = true.
-Proof.
-  induction w as [|l w IH]; intros x H Hin; cbn in *; [contradiction|].
-  apply andb_true_iff in H. destruct H as [H1 H2]. apply in_app_or in Hin. destruct Hin as [Hin|Hin].
-  - rewrite forallb_forall in H1. auto.
-  - eauto.
-Qed.
-
 (** * The invariant *)
 
 Lemma inv_init : forall nrec w, Inv nrec w (init nrec w).
@@ -150,11 +131,11 @@ Proof.
       repeat split; auto; rewrite <- I1, ?app_nil_r; reflexivity.
   - (* exec *)
     destruct (fl s) as [ | | | [|x r] | | | | [|x r] | ] eqn:F; try discriminate;
-      destruct (apply_op (wstore s) (late_view (snd x))) as [st' ok] eqn:AP; inv_some H;
+      destruct (apply_op (wstore s) (snd x)) as [st' ok] eqn:AP; inv_some H;
       unfold Inv, enq; cbn [pending aclosed buffer fl stop applied wstore hist inflight] in *;
       (repeat split; auto;
        [ rewrite <- I1, map_app, <- app_assoc; reflexivity
-       | rewrite map_app; cbn [map fst]; rewrite run_ops_snoc, <- I5; cbn [snd]; rewrite AP; reflexivity ]).
+       | rewrite map_app; cbn [map fst]; unfold run_ops in *; rewrite run_ops_snoc, <- I5; cbn [snd]; rewrite AP; reflexivity ]).
   - (* wait *)
     destruct (fl s) as [ | | | [|x r] | | | | | ] eqn:F; try discriminate; inv_some H;
       unfold Inv, enq; cbn [pending aclosed buffer fl stop applied wstore hist inflight] in *; repeat split; auto.
@@ -223,13 +204,13 @@ Qed.
 
 (** * Refinement: when the flusher is done *)
 
-Lemma refines_late : forall nrec w s,
+Lemma refines_sync : forall nrec w s,
   reach nrec w s -> fl s = Done ->
   (* every enqueued request reached the wrapped cassette exactly once, in enqueue order *)
   map fst (applied s) = enq s /\
-  (* the wrapped cassette and every outcome are those of running the same requests one after the other,
-     with the arguments as the flusher sees them *)
-  (wstore s, applied s) = run_ops_v late_view (init_store nrec) (enq s) /\
+  (* the wrapped cassette and every outcome are exactly those of synchronous recording of the same requests *)
+  (wstore s, applied s) = run_ops (init_store nrec) (enq s) /\
+  wstore s = sync_apply (init_store nrec) (enq s) /\
   (* nothing pending anywhere *)
   buffer s = [] /\ all_done (pending s) = true /\
   (* the request history is, per producer, exactly its workload in request order *)
@@ -244,34 +225,8 @@ Proof.
   { intros i. rewrite <- I7, (all_done_nth _ i AD), app_nil_r. reflexivity. }
   repeat split; auto.
   - rewrite <- I1. exact I5.
+  - unfold sync_apply. rewrite <- I1, <- I5. reflexivity.
   - apply perm_of_issued; auto.
-Qed.
-
-Lemma enq_in_workload : forall nrec w s x,
-  reach nrec w s -> fl s = Done -> In x (enq s) -> In (snd x) (concat w).
-Proof.
-  intros nrec w s x R D Hin. destruct (refines_late _ _ _ R D) as (_ & _ & _ & _ & _ & P).
-  eapply Permutation_in; [exact P|]. unfold enq, accepted in Hin.
-  apply in_map_iff in Hin. destruct Hin as (e & <- & He). apply filter_In in He. destruct He as [He _].
-  apply in_map_iff. exists e. split; auto.
-Qed.
-
-Lemma refines_sync : forall nrec w s,
-  args_stable w = true ->
-  reach nrec w s -> fl s = Done ->
-  map fst (applied s) = enq s /\
-  (* the wrapped cassette and every outcome are exactly those of synchronous recording of the same requests *)
-  (wstore s, applied s) = run_ops (init_store nrec) (enq s) /\
-  wstore s = sync_apply (init_store nrec) (enq s) /\
-  buffer s = [] /\ all_done (pending s) = true /\
-  (forall i, issued i (hist s) = nth i w []) /\
-  Permutation (map op_of (hist s)) (concat w).
-Proof.
-  intros nrec w s ST R D. destruct (refines_late _ _ _ R D) as (A & B & C & E & F & G).
-  assert (B' : (wstore s, applied s) = run_ops (init_store nrec) (enq s)).
-  { rewrite B. apply run_ops_late_stable. intros x Hx.
-    eapply args_stable_concat; eauto using enq_in_workload. }
-  repeat split; auto. unfold sync_apply. rewrite <- B'. reflexivity.
 Qed.
 
 (** two complete runs that enqueued in the same order stored the same thing, whatever the schedule *)
@@ -280,18 +235,17 @@ Lemma schedule_independent : forall nrec w w' s s',
   wstore s = wstore s' /\ applied s = applied s'.
 Proof.
   intros nrec w w' s s' R R' D D' E.
-  destruct (refines_late _ _ _ R D) as (_ & A & _). destruct (refines_late _ _ _ R' D') as (_ & A' & _).
+  destruct (refines_sync _ _ _ R D) as (_ & A & _). destruct (refines_sync _ _ _ R' D') as (_ & A' & _).
   rewrite E in A. rewrite <- A' in A. inversion A. auto.
 Qed.
 
 (** with one producer and nothing refused, the stored state is that of running its workload synchronously *)
 Lemma single_producer : forall nrec l s,
-  args_stable [l] = true ->
   reach nrec [l] s -> fl s = Done -> forallb snd (hist s) = true ->
   wstore s = sync_apply (init_store nrec) (map (fun x => (0, x)) l).
 Proof.
-  intros nrec l s ST R D ALL.
-  destruct (refines_sync _ _ _ ST R D) as (_ & _ & A & _ & _ & IS & _).
+  intros nrec l s R D ALL.
+  destruct (refines_sync _ _ _ R D) as (_ & _ & A & _ & _ & IS & _).
   destruct (reach_inv _ _ _ R) as (_ & _ & _ & _ & _ & _ & _ & I8).
   rewrite A. f_equal. specialize (IS 0). cbn in IS. rewrite <- IS. unfold enq.
   clear - ALL I8. induction (hist s) as [|[[t x] b] h IH]; cbn; auto.
@@ -305,17 +259,17 @@ Qed.
 Lemma failure_does_not_block : forall nrec w s x r,
   reach nrec w s -> (fl s = Batch (x :: r) \/ fl s = Final (x :: r)) ->
   exists s', step_fn false CExec s = Some s' /\
-             applied s' = applied s ++ [(x, snd (apply_op (wstore s) (late_view (snd x))))] /\
+             applied s' = applied s ++ [(x, snd (apply_op (wstore s) (snd x)))] /\
              inflight (fl s') = r /\
              (* whatever the outcome, the next operation (if any) is enabled in turn *)
              (forall y r', r = y :: r' -> exists s'', step_fn false CExec s' = Some s'' /\
                                                      map fst (applied s'') = map fst (applied s) ++ [x; y]).
 Proof.
   intros nrec w s x r _ [F | F]; cbn; rewrite F;
-    destruct (apply_op (wstore s) (late_view (snd x))) as [st' ok] eqn:AP; eexists; (split; [reflexivity|]);
+    destruct (apply_op (wstore s) (snd x)) as [st' ok] eqn:AP; eexists; (split; [reflexivity|]);
     cbn [applied fl inflight snd]; (split; [reflexivity|]); (split; [reflexivity|]);
     intros y r' ->; cbn;
-    destruct (apply_op st' (late_view (snd y))) as [st'' ok'] eqn:AP'; eexists; (split; [reflexivity|]);
+    destruct (apply_op st' (snd y)) as [st'' ok'] eqn:AP'; eexists; (split; [reflexivity|]);
     cbn [applied]; rewrite !map_app, <- app_assoc; reflexivity.
 Qed.
 
@@ -370,7 +324,7 @@ Proof.
   - destruct (fl s) eqn:F; try discriminate; inv_some H; cbn; auto.
   - destruct (fl s) eqn:F; try discriminate; inv_some H; cbn; rewrite ?Nat.add_0_r; auto.
   - destruct (fl s) as [ | | | [|x r] | | | | [|x r] | ] eqn:F; try discriminate;
-      destruct (apply_op (wstore s) (late_view (snd x))); inv_some H; cbn; auto.
+      destruct (apply_op (wstore s) (snd x)); inv_some H; cbn; auto.
   - destruct (fl s) as [ | | | [|x r] | | | | | ] eqn:F; try discriminate; inv_some H; cbn; auto.
   - destruct (fl s) eqn:F; try discriminate; inv_some H; cbn; auto.
   - rewrite S in H. rewrite andb_false_r in H. discriminate.
@@ -385,7 +339,7 @@ Proof.
   intros nrec w s R S ND. destruct (reach_inv _ _ _ R) as (_ & _ & I3 & _).
   unfold flusher_choice. destruct (fl s) as [ | | | [|x r] | | | | [|x r] | ] eqn:F;
     try (exfalso; apply ND; reflexivity);
-    try (destruct (apply_op (wstore s) (late_view (snd x))) as [st' ok] eqn:AP);
+    try (destruct (apply_op (wstore s) (snd x)) as [st' ok] eqn:AP);
     eexists; eexists; (split; [reflexivity|]); cbn; rewrite F; rewrite ?AP, ?Bool.eqb_reflx; reflexivity.
 Qed.
 
@@ -423,26 +377,35 @@ Qed.
 Lemma run_schedule_reach : forall nrec w strict cs s s',
   reach nrec w s -> run_schedule strict cs s = Some s' -> reach nrec w s'.
 Proof.
-  intros nrec w strict cs. induction cs as [|c cs IH]; intros s s' R H; cbn in H.
+  intros nrec w strict cs. unfold run_schedule. induction cs as [|c cs IH]; intros s s' R H; cbn in H.
   - inversion H; subst; auto.
-  - destruct (step_fn strict c s) as [s1|] eqn:ST; try discriminate.
+  - destruct (step_fn_v (fun x => x) strict c s) as [s1|] eqn:ST; try discriminate.
     apply (IH s1); auto. econstructor; eauto. exists c.
-    destruct strict; auto using strict_is_step.
+    destruct strict; [apply strict_is_step|]; exact ST.
 Qed.
 
-(** F12: a caller that keeps using a dict after passing it to add_metadata gets a different stored recording *)
+(** F12 (repaired by /repo commit ba7c02c): under the pre-fix behaviour - the flusher reads the caller's dict when it
+    runs the operation - a caller that keeps using a dict after passing it to add_metadata gets a stored recording
+    that differs from synchronous recording of the same requests *)
 Definition alias_work : list (list op) :=
   [[Op 0 0 (AddMetaMut [(0%N, 1%N)] 1%N 2%N) false; Op 1 0 Save false]].
+Definition alias_sched : list choice :=
+  [CProduce 0; CProduce 0; CClose; CCheck true; CLock; CSwap; CExec; CExec; CDone].
 
-Lemma argument_alias_refuted :
-  exists nrec w s, reach nrec w s /\ fl s = Done /\ wstore s <> sync_apply (init_store nrec) (enq s).
+Lemma legacy_argument_alias :
+  exists nrec w cs s, legacy_run_schedule true cs (init nrec w) = Some s /\ fl s = Done /\
+                      wstore s <> sync_apply (init_store nrec) (enq s).
 Proof.
-  exists 1, alias_work.
-  destruct (run_schedule true [CProduce 0; CProduce 0; CClose; CCheck true; CLock; CSwap; CExec; CExec; CDone]
-              (init 1 alias_work)) as [s|] eqn:E; [|vm_compute in E; discriminate].
-  exists s. split; [|split].
-  - eapply run_schedule_reach; [apply reach_init | exact E].
-  - vm_compute in E. inversion E. reflexivity.
-  - vm_compute in E. inversion E. vm_compute. discriminate.
+  exists 1, alias_work, alias_sched.
+  destruct (legacy_run_schedule true alias_sched (init 1 alias_work)) as [s|] eqn:E; [|vm_compute in E; discriminate].
+  exists s. split; [reflexivity|]. vm_compute in E. inversion E. split; [reflexivity|]. vm_compute. discriminate.
 Qed.
 
+(** the same workload and schedule on the current code: stored = synchronous *)
+Lemma argument_alias_repaired :
+  exists s, run_schedule true alias_sched (init 1 alias_work) = Some s /\ fl s = Done /\
+            wstore s = sync_apply (init_store 1) (enq s).
+Proof.
+  destruct (run_schedule true alias_sched (init 1 alias_work)) as [s|] eqn:E; [|vm_compute in E; discriminate].
+  exists s. split; [reflexivity|]. vm_compute in E. inversion E. split; reflexivity.
+Qed.
